@@ -134,7 +134,7 @@ inline Bytes blake2b_long(const Bytes &in, uint32_t outlen) {
 // ---------------------------------------------------------------------------------------------------------
 
 // Deterministic filler shared with the python generator scripts: byte i = (seed + 13*i + 7*(i>>8)) mod 256.
-inline Bytes kat_pattern(size_t n, unsigned seed) {
+inline Bytes pwhash_kat_pattern(size_t n, unsigned seed) {
     Bytes b(n);
     for (size_t i = 0; i < n; i++) b[i] = (uint8_t)(seed + 13 * i + 7 * (i >> 8));
     return b;
@@ -484,7 +484,7 @@ inline int selftest_blake2b() {
 
     // Development-time KATs generated with python3 hashlib:
     //   hashlib.blake2b(pat(msglen,1), digest_size=outlen, key=pat(keylen,2), salt=pat(16,3) or b'', person=pat(16,4) or b'')
-    // with pat(n, seed) = bytes((seed + 13*i + 7*(i>>8)) & 0xff for i in range(n))  (== kat_pattern above).
+    // with pat(n, seed) = bytes((seed + 13*i + 7*(i>>8)) & 0xff for i in range(n))  (== pwhash_kat_pattern above).
     // Columns: msglen, outlen, keylen, salt present, personal present, digest.
     {
         static const struct { int msglen, outlen, keylen, has_salt, has_pers; const char *hex; } kat[] = {
@@ -541,15 +541,15 @@ inline int selftest_blake2b() {
         };
         for (size_t k = 0; k < sizeof kat / sizeof kat[0]; k++) {
             snprintf(name, sizeof name, "hashlib kat msg=%d out=%d key=%d salt=%d pers=%d", kat[k].msglen, kat[k].outlen, kat[k].keylen, kat[k].has_salt, kat[k].has_pers);
-            t.eqh(name, blake2b(kat_pattern((size_t) kat[k].msglen, 1), (size_t) kat[k].outlen, kat_pattern((size_t) kat[k].keylen, 2),
-                                kat[k].has_salt ? kat_pattern(16, 3) : Bytes(), kat[k].has_pers ? kat_pattern(16, 4) : Bytes()), kat[k].hex);
+            t.eqh(name, blake2b(pwhash_kat_pattern((size_t) kat[k].msglen, 1), (size_t) kat[k].outlen, pwhash_kat_pattern((size_t) kat[k].keylen, 2),
+                                kat[k].has_salt ? pwhash_kat_pattern(16, 3) : Bytes(), kat[k].has_pers ? pwhash_kat_pattern(16, 4) : Bytes()), kat[k].hex);
         }
     }
 
     // H' (RFC 9106 3.3): structural checks against its definition in terms of H, for lengths around the 64-byte
     // switch-over and the 32-byte chunking (end-to-end values are covered by the Argon2 vectors in argon2.hpp).
     {
-        Bytes A = kat_pattern(72, 9);
+        Bytes A = pwhash_kat_pattern(72, 9);
         auto le_A = [&](uint32_t T) { uint8_t le[4]; st32le(le, T); return cat(Bytes(le, le + 4), A); };
         t.eq("H' T=1", blake2b_long(A, 1), blake2b(le_A(1), 1));
         t.eq("H' T=64", blake2b_long(A, 64), blake2b(le_A(64), 64));
